@@ -20,6 +20,11 @@ import queue
 class WorkerClosedError(RuntimeError):
     def __init__(self, worker):
         super().__init__(f'Trying to enqueue to a closed worker: {worker}')
+        self._worker_desc = str(worker)
+
+    def __reduce__(self):
+        # recreate from the description of the worker, not from the message (which would get its prefix twice)
+        return (type(self), (self._worker_desc, ))
 
 
 class PersistentWorker(Worker):
